@@ -1271,6 +1271,10 @@ func (i *interpreter) conv(t_dst, t_src types.Type, x value) value {
 				switch u := x.(type) {
 				case ptrTok:
 					if u.off != 0 {
+						// byte cells are one interpreter cell per byte: byte offsets are cell offsets
+						if u.p != nil && isByteCell(*u.p) {
+							return unsafe.Pointer(cellAt(u.p, u.off))
+						}
 						unsupported("pointer token with offset converted back to pointer")
 					}
 					return unsafe.Pointer(u.p)
